@@ -600,9 +600,9 @@ func (g *gen) logLines() []string {
 			continue
 		}
 		if it.status == "ok" {
-			out = append(out, "golite: ok "+it.label)
+			out = append(out, "golite: ok "+it.label+" ["+g.prop+"]")
 		} else {
-			out = append(out, "golite: unsupported "+it.label+": "+it.reason)
+			out = append(out, "golite: unsupported "+it.label+" ["+g.prop+"]: "+it.reason)
 		}
 	}
 	return out
